@@ -70,7 +70,7 @@ def satRange (a : Atom) (r : Range) : Bool :=
 /-- the atom `a` satisfies the constraint -/
 def sat (re : Bytes → Bytes → Bool) (a : Atom) : Constraint → Bool
   | .atom b => a.sameKind b && a.eqv b
-  | .type k => k.has a
+  | .type t => t.kind.has a
   | .bound b => satBound re a b
   | .range r => satRange a r
 
@@ -86,22 +86,5 @@ def Atom.same (a b : Atom) : Bool := a.sameKind b && a.eqv b
 /-- `r` is a successful unification with the atom `a` ("and the result is then that atom") -/
 def accepts (r : Result) (a : Atom) : Prop :=
   ∃ b, r = .atom b ∧ b.same a = true
-
-/-- The defect region (see `Props/C03.lean`): `internal.BaseContext.Ceil/Floor` round their
-result to 34 digits and `SimplifyBounds` ignores the Inexact condition.  A numeric bound operand
-is *small* when it is an integer or its integer part (plus one) has at most 34 digits. -/
-def Bound.small (b : Bound) : Bool :=
-  match b.val with
-  | .float d => d.fits34
-  | _ => true
-
-/-- The constraints the theorems speak about: bounds outside the defect region, and basic types
-with a non-empty kind mask (the only ones CUE source can express). -/
-def Constraint.regular : Constraint → Bool
-  | .bound b => b.small
-  | .type k => k != 0
-  | _ => true
-
-def Regular (cs : List Constraint) : Prop := ∀ c ∈ cs, c.regular = true
 
 end CueVerif.Scalar
